@@ -265,6 +265,67 @@ def oracle(ctx):
         for nm, x_, y_ in zip(["aa", "ac"], g2q, r2q):
             if x_ is None or not torch.allclose(x_, y_, rtol=1e-7, atol=1e-10):
                 ctx.fail("oracle", "mcquad:dummy1d:grad2:" + nm, info, x_, y_)
+    # an integrand that holds its parameter in an object next to a log-density with an EXPLICIT parameter: each function gets
+    # its own tensors (seeded defect C16/4: the offset of the object parameters dropped from the split of the packed list);
+    # deterministic sampler, so the three forms must agree to rounding
+    import xitorch as xt
+
+    class FHold(xt.EditableModule):
+        def __init__(self, a_):
+            self.a = a_
+
+        def f(self, x):
+            return torch.exp(-self.a * x * x).sum()
+
+        def getparamnames(self, methodname, prefix=""):
+            return [prefix + "a"]
+    detstep = lambda x, *p: x * -0.8 + 0.15
+    pstep = lambda x, s: x * -0.8 + 0.15 * s.detach()          # the custom step receives the log-density's parameters
+    vals = {}
+    for kind in ("pure", "EditableModule"):
+        a_ = torch.tensor(0.3, dtype=DT, requires_grad=True)
+        s_ = torch.tensor(1.2, dtype=DT, requires_grad=True)
+        logp_ = lambda x, s: -(x * x).sum() * s
+        if kind == "pure":
+            v = mcquad(lambda x, a: torch.exp(-a * x * x).sum(), logp_, torch.zeros(1, dtype=DT), fparams=(a_,), pparams=(s_,),
+                       method="mhcustom", custom_step=pstep, nsamples=15, nburnout=2)
+        else:
+            v = mcquad(FHold(a_).f, logp_, torch.zeros(1, dtype=DT), fparams=(), pparams=(s_,),
+                       method="mhcustom", custom_step=pstep, nsamples=15, nburnout=2)
+        ga, gs = torch.autograd.grad(v, (a_, s_), allow_unused=True)
+        vals[kind] = [v.detach(), torch.zeros(()) if ga is None else ga, torch.zeros(()) if gs is None else gs]
+        ctx.count(("pparams-with-object-params", kind), nontrivial=True)
+    if any(not torch.allclose(x_.to(DT), y_.to(DT), rtol=1e-10, atol=1e-12) for x_, y_ in zip(vals["EditableModule"], vals["pure"])):
+        ctx.fail("oracle", "mcquad:pparams-next-to-object-params", {"integrand": "EditableModule method", "log_p": "explicit parameter"},
+                 [float(t) for t in vals["EditableModule"]], [float(t) for t in vals["pure"]])
+    # tensors that require grad but do not enter f get a zero (or absent) gradient, not an exception (seeded defect C16/6)
+    for case in ("unused-fparam", "module-with-unused-parameter"):
+        c_ = torch.tensor(0.5, dtype=DT, requires_grad=True)
+        t_ = torch.tensor(2.0, dtype=DT, requires_grad=True)
+        s_ = torch.tensor(1.1, dtype=DT, requires_grad=True)
+        ctx.count(("mcquad-unused", case), nontrivial=True)
+        try:
+            if case == "unused-fparam":
+                v = mcquad(lambda x, c, t: (c * x * x).sum(), lambda x, s: -(x * x).sum() * s, torch.zeros(1, dtype=DT), fparams=(c_, t_),
+                           pparams=(s_,), method="mhcustom", custom_step=detstep, nsamples=10, nburnout=1)
+                gt = torch.autograd.grad(v, (c_, t_, s_), allow_unused=True)[1]
+            else:
+                class NetU(torch.nn.Module):
+                    def __init__(self):
+                        super().__init__()
+                        self.w = torch.nn.Parameter(torch.tensor(2.0, dtype=DT))
+
+                    def forward(self, x):
+                        return (x * x).sum()              # uses none of its parameters
+                net = NetU()
+                v = mcquad(net.forward, lambda x, s: -(x * x).sum() * s, torch.zeros(1, dtype=DT), pparams=(s_,), method="mhcustom",
+                           custom_step=detstep, nsamples=10, nburnout=1)
+                gt = torch.autograd.grad(v, (net.w, s_), allow_unused=True)[0]
+        except Exception as e:
+            ctx.fail("oracle", "mcquad:unused-tensor:exception", {"case": case}, repr(e)[:200], "a zero or absent gradient")
+            continue
+        if gt is not None and float(gt.abs().max()) != 0.0:
+            ctx.fail("oracle", "mcquad:unused-tensor:nonzero", {"case": case}, float(gt), "zero or None")
     # the collection phase continues from the burned-in state (seeded defect C16/3): target N(30, 1), chain started at 0 with
     # unit steps; after 1500 burn-in steps every collected sample lies in 30 +- 8 (> 6 sigma), whatever the seed
     for seed in range(3):
